@@ -161,7 +161,7 @@ func TestC07(t *testing.T) {
 			run.Count("events:"+k, v)
 		}
 	}
-	n := run.Pick(40, 2000)
+	n := run.Pick(80, 8000)
 	for i := 0; i < n; i++ {
 		if !run.Mine(i) {
 			continue
@@ -189,7 +189,7 @@ func TestC07(t *testing.T) {
 			run.Sample(sc)
 		}
 	}
-	nb := run.Pick(40, 2000)
+	nb := run.Pick(80, 8000)
 	for i := 0; i < nb; i++ {
 		if !run.Mine(i) {
 			continue
